@@ -55,6 +55,9 @@ class Repo:
         return r.stdout.strip()
 
     def rand_time(self):
+        if self.rng.random() < 0.04:
+            # edge instants: the epoch itself, the i32 boundary, far future
+            return self.rng.choice([0, 1, 86399, 2 ** 31 - 1, 2 ** 31, 4102444800, 7258118399])
         return self.rng.randrange(1_400_000_000, 1_800_000_000)
 
     def head_cid(self):
@@ -62,7 +65,7 @@ class Repo:
 
     def _commit_raw(self, msg, parents_extra):
         ct, at = self.rand_time(), self.rand_time()
-        self.git("commit", "-q", "--allow-empty", "-m", msg, env={"GIT_COMMITTER_DATE": "%d +0000" % ct, "GIT_AUTHOR_DATE": "%d +0000" % at})
+        self.git("commit", "-q", "--allow-empty", "-m", msg, env={"GIT_COMMITTER_DATE": "@%d +0000" % ct, "GIT_AUTHOR_DATE": "@%d +0000" % at})
         sha = self.git("rev-parse", "HEAD")
         cid = len(self.commits)
         parents = ([self.head_cid()] if self.commits else []) + parents_extra
@@ -121,7 +124,7 @@ class Repo:
                 self.ops.append("ff-merge %s" % other)
                 return True
         ct, at = self.rand_time(), self.rand_time()
-        self.git("merge", "-q", "--no-ff", "-m", "merge %s" % other, "refs/heads/" + other, env={"GIT_COMMITTER_DATE": "%d +0000" % ct, "GIT_AUTHOR_DATE": "%d +0000" % at})
+        self.git("merge", "-q", "--no-ff", "-m", "merge %s" % other, "refs/heads/" + other, env={"GIT_COMMITTER_DATE": "@%d +0000" % ct, "GIT_AUTHOR_DATE": "@%d +0000" % at})
         sha = self.git("rev-parse", "HEAD")
         cid = len(self.commits)
         self.commits.append(dict(id=cid, parents=[h, o], ctime=ct, atime=at, sha=sha))
@@ -139,7 +142,7 @@ class Repo:
         tt = None
         if annotated:
             tt = self.rand_time()
-            r = self.git("tag", "-a", "-m", "tag " + name, name, self.commits[cid]["sha"], env={"GIT_COMMITTER_DATE": "%d +0000" % tt}, check=False)
+            r = self.git("tag", "-a", "-m", "tag " + name, name, self.commits[cid]["sha"], env={"GIT_COMMITTER_DATE": "@%d +0000" % tt}, check=False)
         else:
             r = self.git("tag", name, self.commits[cid]["sha"], check=False)
         # verify it exists (names git refuses are simply skipped)
